@@ -21,6 +21,8 @@ CHECKS = {
     "C06:Bag.__eq__": lambda: H.chk_frame("Bag", "__eq__") or H.chk_frame("Bag", "__ne__"),
     **H13.CHECKS,
     "C02:Bag.vector": lambda: H.chk_bag_vector("fill"),
+    "C01:Bag.vector": lambda: H.chk_bag_vector("merge"),
+    "C08:Bag.vector": lambda: H.chk_bag_vector("scale"),
     "C09:Bag.vector": lambda: H.chk_bag_vector("eq"),
     "C09:clones": lambda: next((m for K in H.CLASSES for ne in (False, True) for m in [H.chk_eq(K, "complete", ne)] if m), None),
     "C17:string-expr": lambda: H.chk_c17("string-expr"),
